@@ -93,14 +93,15 @@ void snoopy_message_generateFromFormat (
         }
 
         // Otherwise copy text up to the next data source tag
-        lengthToCopy = (int) (fmtPos_nextFormatTag - fmtPos_cur + 1); // + 1 for null termination
-        if (lengthToCopy > dataSourceMsgBufSize) {
-            lengthToCopy = dataSourceMsgBufSize;
+        lengthToCopy = (size_t) (fmtPos_nextFormatTag - fmtPos_cur);
+        if (lengthToCopy > 0) {
+            // Literal text is not a data source: do not stage it through (and cut it to) the data source buffer
+            char * literalText = malloc(lengthToCopy + 1);
+            memcpy(literalText, fmtPos_cur, lengthToCopy);
+            literalText[lengthToCopy] = '\0';
+            snoopy_message_append(logMessage, logMessageBufSize, literalText);
+            free(literalText);
         }
-        dataSourceMsg[0] = '\0'; // Let's just use this buffer, even if it is called something else
-        snprintf(dataSourceMsg, lengthToCopy, "%s", fmtPos_cur);
-        snoopy_message_append(logMessage, logMessageBufSize, dataSourceMsg);
-        dataSourceMsg[0] = '\0'; // And wipe it for later reuse
 
         // Get data source tag
         fmtPos_nextFormatTagClose = strstr(fmtPos_nextFormatTag, "}");
